@@ -210,6 +210,16 @@ func (s *Store) SortedKeys() []cid.Cid {
 	return ks
 }
 
+// Snapshot returns a read-only view of the durable blocks keyed by
+// cid.KeyString(). The caller must not mutate it.
+func (s *Store) Snapshot() map[string][]byte {
+	m := make(map[string][]byte, len(s.durable))
+	for k, v := range s.durable {
+		m[k] = v
+	}
+	return m
+}
+
 // Len is the number of durable blocks.
 func (s *Store) Len() int { return len(s.durable) }
 
